@@ -1,11 +1,13 @@
 """C10 implementation runner: QLearning / SARSA / ExpectedSARSA / DoubleQLearning on generated MDPs.
 
 A recording TDLearningEventListener (msdm's public listener interface) captures every experienced
-step from the learner's own local variables at end_of_timestep: (s, a, r, ns), SARSA's next action,
-the entry just written (for diagnosis), and for double Q which table was updated and which argmax
-pick was used (module-level name `argmax` of msdm.algorithms.tdlearning wrapped from here; nothing
-in /repo is modified).  Episode start states are taken from end_of_episode / the first step.
-For expected SARSA the behaviour distribution used for the target (local `na_dist`) is recorded too.
+step at end_of_timestep: (s, a, r, ns) from the locals msdm hands over (the names its own
+EpisodeRewardEventListener uses), SARSA's `na` if present (optional: the harness derives it from the
+next step), and the entry Q(s,a) just written in every state->action->value table found among those
+locals BY STRUCTURE (one table; two for double Q) -- no local name beyond s/a/r/ns is required, no
+msdm helper is wrapped, nothing depends on how many random numbers are drawn.  Episode start states
+are taken from end_of_episode / the first step.  Double Q's (table, argmax pick) and the softmax
+behaviour distribution are inferred/computed by harness/c10.py:annotate and checked by the Coq fold.
 Returned: the experience, the final Q-table WITH ITS KEY ORDER (snapshot taken before the policy is
 queried, and the key list again afterwards), and the policy at every state id of the MDP.
 
@@ -21,7 +23,6 @@ import os, sys, json, random
 sys.path.insert(0, os.path.dirname(os.path.abspath(__file__)))
 from build import *
 
-_PICKS = []
 _CTX = {"sid": None, "aid": None}
 
 S_POOLS = {"str": ["", "a", "b", "c", "d", "e", "f"],
@@ -34,17 +35,21 @@ A_POOLS = {"str": ["", "left", "r"], "tuple": [(), (0, 1), (1, 0)], "mixed": [0,
 
 def _install():
     import msdm.algorithms.tdlearning as td
-    if getattr(td, "_c10_wrapped", False):
-        return td
-    orig = td.argmax
-
-    def rec_argmax(d, rng):
-        aa = orig(d, rng)
-        _PICKS.append((d, aa[-1] if len(aa) else None))   # the learner takes .pop() = last element
-        return aa
-    td.argmax = rec_argmax
-    td._c10_wrapped = True
     return td
+
+
+def _tables(lv, s, a):
+    """the state -> action -> value tables among the locals, in order of appearance, whatever their names"""
+    out = []
+    for v in lv.values():
+        try:
+            if isinstance(v, dict) and dict.__contains__(v, s):
+                row = dict.__getitem__(v, s)
+                if isinstance(row, dict) and a in row and not any(v is t for t in out):
+                    out.append(v)
+        except TypeError:
+            pass
+    return out
 
 
 def make_listener(td, kind):
@@ -59,25 +64,11 @@ def make_listener(td, kind):
                 self.cur = {"start": sid[lv["s"]], "steps": []}
             s, a, ns = lv["s"], lv["a"], lv["ns"]
             st = {"s": sid[s], "a": aid[a], "r": fj(lv["r"]), "ns": sid[ns]}
-            if kind == "sarsa":
-                st["na"] = aid[lv["na"]]
-            if kind == "dq":
-                if len(_PICKS) != 1:
-                    raise RuntimeError("expected exactly one argmax call per double-Q step, saw %d" % len(_PICKS))
-                d, pick = _PICKS.pop()
-                q1ns, q2ns = dict.get(lv["q1"], ns), dict.get(lv["q2"], ns)
-                if d is q1ns:
-                    st["coin"] = True
-                elif d is q2ns:
-                    st["coin"] = False
-                else:
-                    raise RuntimeError("argmax was not taken over q1[ns] or q2[ns]")
-                st["pick"] = aid[pick]
-                st["after"] = [fj(lv["q1"][s][a]), fj(lv["q2"][s][a])]
-            else:
-                st["after"] = [fj(lv["q"][s][a])]
-            if kind == "esarsa":
-                st["dist"] = [[aid[b], fj(p)] for b, p in lv["na_dist"].items()]
+            na = lv.get("na", None) if kind == "sarsa" else None
+            if kind == "sarsa" and "na" in lv and na in aid:
+                st["na"] = aid[na]
+            # the entry just written, in every table the learner keeps (1; 2 for double Q)
+            st["after"] = [fj(dict.__getitem__(t, s)[a]) for t in _tables(lv, s, a)]
             self.cur["steps"].append(st)
 
         def end_of_episode(self, lv):
@@ -85,7 +76,6 @@ def make_listener(td, kind):
                 self.cur = {"start": _CTX["sid"][lv["s"]], "steps": []}
             self.episodes.append(self.cur)
             self.cur = None
-            del _PICKS[:]
 
         def results(self):
             return self.episodes
@@ -173,7 +163,6 @@ def num(case, x):
 
 def one(case, pl):
     td = _install()
-    del _PICKS[:]
     kind = case["learner"]
     cls = {"ql": td.QLearning, "sarsa": td.SARSA, "esarsa": td.ExpectedSARSA, "dq": td.DoubleQLearning}[kind]
     if case.get("expect_raise"):
@@ -204,7 +193,6 @@ def one(case, pl):
     out = []
     built = {}
     for spec in stages:
-        del _PICKS[:]
         key = json.dumps(spec, sort_keys=True)
         if key not in built:
             built[key] = build(case, spec, slab, alab)
@@ -227,11 +215,9 @@ def one(case, pl):
         requery_ok = again == first
         keys_after = [sid[k] for k in dict.keys(res.q_values)]
         # twin: a second learner object of the same class, msdm's default listener, same MDP object
-        del _PICKS[:]
         if case["seed"] is None:
             random.seed(case.get("global_seed", 0))
         twin = cls(**params).train_on(mdp)
-        del _PICKS[:]
         tq = twin.q_values
         twin_table = {sid[s]: {aid[a]: v for a, v in dict.items(dict.__getitem__(tq, s))} for s in dict.keys(tq)}
         mine = {sid[s]: {aid[a]: v for a, v in dict.items(dict.__getitem__(q, s))} for s in keys}
